@@ -25,6 +25,18 @@ type state struct {
 	prog []op
 	miss []int
 	live [maxHandles]bool
+	lens [maxHandles]int // len/cap of the live handles (the relative alphabet derives sizes from them)
+	caps [maxHandles]int
+}
+
+func relUsed(prog []op) int {
+	n := 0
+	for _, o := range prog {
+		if o.Rel {
+			n++
+		}
+	}
+	return n
 }
 
 func succOps(c *acfg, st *state) []op {
@@ -55,6 +67,9 @@ func succOps(c *acfg, st *state) []op {
 			out = append(out, op{K: 'R', H: h, N: s})
 		}
 		out = append(out, op{K: 'F', H: h})
+		if c.Ext {
+			out = append(out, extOps(c, h, st.lens[h], st.caps[h], c.RelMax == 0 || relUsed(st.prog) < c.RelMax)...)
+		}
 	}
 	return out
 }
@@ -91,6 +106,14 @@ func (s *searcher) expand(st *state, depth int, account bool, seen map[[16]byte]
 			pre := stack[len(stack)-1]
 			stack = stack[:len(stack)-1]
 			r := execute(c, prog, pre, false)
+			if r.invalid {
+				p.Errorf("HARNESS: %s %s left the program space", c.Name, progString(prog))
+				continue
+			}
+			if c.Ext && c.RelMax > 0 {
+				// what may follow depends on the relative operations already spent
+				r.key[15] ^= byte(relUsed(prog) * 37)
+			}
 			if len(r.choices) < len(pre) {
 				p.Errorf("NONDETERMINISM: %s %s made %d pool choices, replayed prefix has %d", c.Name, progString(prog), len(r.choices), len(pre))
 				continue
@@ -123,7 +146,7 @@ func (s *searcher) expand(st *state, depth int, account bool, seen map[[16]byte]
 				if d0, ok := seen[r.key]; !ok || uint8(depth) < d0 {
 					seen[r.key] = uint8(depth)
 					isNew = !ok
-					*next = append(*next, &state{prog: prog, miss: r.choices, live: r.live})
+					*next = append(*next, &state{prog: prog, miss: r.choices, live: r.live, lens: r.lens, caps: r.caps})
 				}
 			}
 			if account {
@@ -157,6 +180,11 @@ func (s *searcher) expand(st *state, depth int, account bool, seen map[[16]byte]
 					p.Count("executions ending with >=2 live buffers", 1)
 				}
 				p.Outcome(c.Kind + ": " + r.class)
+				if o.K != 'M' && o.K != 'F' {
+					if g := growthClass(o, st.lens[o.H], st.caps[o.H]); g != "" {
+						p.Count("growth "+map[bool]string{false: "general", true: "extended"}[c.Ext]+" "+c.Kind+": "+g, 1)
+					}
+				}
 				if r.reused && r.moved {
 					p.Sample(map[string]interface{}{"allocator": c.Name, "program": progString(prog), "pool_miss": r.choices, "last_op": r.class})
 				}
@@ -301,6 +329,9 @@ func witness(c *acfg, prog []op, sig string) ([]int, *viol) {
 		pre := stack[len(stack)-1]
 		stack = stack[:len(stack)-1]
 		r := execute(c, prog, pre, true)
+		if r.invalid {
+			return nil, nil
+		}
 		if r.v != nil && r.v.sig == sig {
 			return r.choices, r.v
 		}
